@@ -14,6 +14,7 @@ R14e  atom equality/hash go through the bytes: Hash/PartialEq/Borrow/Deref for A
       kinds through bytes_eq_int (length == len_for_value, sign bit clear, big-endian value equal).
 """
 import os
+import re
 import subprocess
 import time
 from lib import mir, tables, sibling
@@ -292,7 +293,7 @@ def run(ctx):
         for st in be.stmts(b):
             if st.get("d") and st["d"]["l"] == 0:
                 ret.append(show(be.denamed(be.expr_rvalue(st["rv"], deep=False))))
-    ck.ob("R14e", A + "bytes_eq_int", ok and lencall and ("($3 Eq %u32#0)" in ret or "(%u32#0 Eq $3)" in ret),
+    ck.ob("R14e", A + "bytes_eq_int", ok and lencall and any(re.fullmatch(r"\(\$3 Eq %u32(#\d+)?\)|\(%u32(#\d+)? Eq \$3\)", r_) for r_ in ret),
           "heap bytes equal an inline integer iff length == len_for_value(val), the sign bit is clear and the big-endian value is equal",
           site=be.where(0), detail={"tests": tests, "returns": ret})
 
